@@ -132,7 +132,7 @@ def check_case(case, common, out):
         return
     if not hasattr(q, "expr") or "disk" in prog.tags:
         return
-    replay = {"kind": "call", "module": "vf.props.C05", "func": "replay_case", "args": {"case": list(case)}}
+    replay = {"kind": "call", "module": "vf.props.C05", "func": "replay_case", "args": {"case": list(case), **({"default_method": True} if common.get("default_method") else {})}}
     tabs = K.tabs_for(case[0], case[1])
     src_before = {k: tokenize(v) for k, v in tabs.items()}
     with warnings.catch_warnings():
@@ -224,10 +224,16 @@ def source_case(case, common, out):
             pdf = orig.copy(deep=True)
 
 
-def replay_case(case):
+def replay_case(case, default_method=False, _initialised=False):
     from vf.rt.pool import _init
 
-    _init()
+    if not _initialised:
+        _init()
+    if default_method:
+        import dask
+
+        with dask.config.set({"dataframe.shuffle.method": None}):
+            return replay_case(case, _initialised=True)
     out = {"counts": {}, "violations": [], "samples": [], "errors": [], "notes": {}}
     ls = case[2]
     ls = (ls[0], tuple(tuple(x) if isinstance(x, list) else x for x in ls[1]) if isinstance(ls[1], list) else ls[1], ls[2])
@@ -261,6 +267,8 @@ def run(run):
         cases = K.standard_cases(hand + d1, ["range", "dupint", "str"], [("np", 2, True), ("np", 3, True), ("np", 5, False), ("np", 8, True)])
         cases += K.standard_cases(C.generated_depth2(rng, 1500), ["range"], [("np", 3, True)])
     run_cases(run, "vf.props.C05", "check_case_reg", cases, {"fuse": True, "threads": 8})
+    picks = [n for n in hand if n.startswith("drop_duplicates")]
+    run_cases(run, "vf.props.C05", "check_case_default_method", K.standard_cases(picks, ["range", "dupint"], [("np", 3, True), ("np", 5, False)]), {"fuse": True, "threads": 8})
     run_cases(run, "vf.props.C05", "source_case", [(k, n) for k in ("sorted", "unsorted", "dups") for n in (1, 3, 5)], {}, chunk=1)
     run.lemmas.append({"name": "L3 order-independence of evaluating a finite DAG of deterministic, non-mutating tasks", "status": "assumed (stated, not machine-checked in this run)"})
     # tier P (the part of the property a contract can carry): tasks of the generic Blockwise layer and of the overlap layer
@@ -271,6 +279,16 @@ def run(run):
     run.assume("L3: in a closed acyclic graph (C09) of deterministic tasks that do not mutate their arguments every dependency-respecting evaluation order yields the same value for every key; it is the only route by which this check says anything about ALL schedules")
     run.assume("NOT decided: interference between threads inside pandas / numpy / partd, on-disk state of the disk shuffle under concurrent runs, schedulers that do not respect dependencies; no schedule space is enumerated (sampled orders only)")
     run.trust("argument fingerprints use dask.base.tokenize (content hash of pandas objects) plus labels / dtypes / names / attrs")
+
+
+def check_case_default_method(case, common, out):
+    """The same contract with dask's DEFAULT shuffle method (the worker pool pins "tasks"; on a single machine the default is the
+    order-scrambling disk shuffle): operations whose result picks rows by order (drop_duplicates keep=first/last) must choose an
+    order-preserving method themselves, so their result may not depend on the execution order under the default either."""
+    import dask
+
+    with dask.config.set({"dataframe.shuffle.method": None}):
+        check_case(case, dict(common, default_method=True), out)
 
 
 def check_case_reg(case, common, out):
